@@ -145,3 +145,11 @@ package keeper
 //@ ensures err == nil ==> old(activeVault(Store_restake, key)) && !activeVault(Store_restake, key)
 //@ ensures err == nil ==> Store_restake == store(old(Store_restake), types.VaultStoreKey(key), enc(with(old(vaultAt(Store_restake, key)), "IsActive", false)))
 //@ ensures err != nil ==> Store_restake == old(Store_restake)
+
+// ---- frame of the store invariants: each record family is written only through these functions ------------------------
+// (the invariants above are proved writer by writer - "a lock has its index entry", "a record is filed under its own id";
+// a new function that Sets or Deletes such keys directly is outside that argument: ground obligation `writers/...`)
+//@ writers LockByPowerIndexKey: Keeper.deleteLockByPower, Keeper.setLockByPower
+//@ writers LockStoreKey: Keeper.DeleteLock, Keeper.SetLock
+//@ writers StakeStoreKey: Keeper.DeleteStake, Keeper.SetStake
+//@ writers VaultStoreKey: Keeper.SetVault
